@@ -151,19 +151,22 @@ Proof. exact parse_rdnss_map_order. Qed.
 
 (* the specification checker that is evaluated on the implementation's observed output (Corr.C14.holds)
    accepts the model's output on every input whose addresses are 128-bit numbers *)
-Theorem C14_checker_accepts_model_plugin : forall auto servers lifetime addrs,
+Theorem C14_checker_accepts_model_plugin : forall auto servers lifetime addrs k,
   (forall l, addrs = Some l -> Forall (fun e => ip_addr e < 2 ^ 128) l) ->
   Corr.C14.holds (Corr.C14.mkCase None (Ok (auto, servers)) lifetime addrs
-                    (rdnss_Apply auto lifetime servers addrs)) = true.
+                    (rdnss_Apply auto lifetime servers addrs)
+                    (repeat (rdnss_Apply auto lifetime servers addrs) k)) = true.
 Proof. exact Proofs.WildcardCorr14.C14_checker_accepts_model_plugin. Qed.
 
-Theorem C14_checker_accepts_model_config : forall raw lifetime addrs,
+(* the same plugin value applied 1 + k times (every RA of the advertiser's life): the model is a function
+   of the parsed stanza and the address list, so every application yields the same option *)
+Theorem C14_checker_accepts_model_config : forall raw lifetime addrs k,
   (forall l, addrs = Some l -> Forall (fun e => ip_addr e < 2 ^ 128) l) ->
-  Corr.C14.holds (Corr.C14.mkCase (Some raw) (parse_rdnss raw) lifetime addrs
-     (match parse_rdnss raw with
-      | Ok (auto, servers) => rdnss_Apply auto lifetime servers addrs
-      | Err e => Err e
-      end)) = true.
+  let obs := match parse_rdnss raw with
+             | Ok (auto, servers) => rdnss_Apply auto lifetime servers addrs
+             | Err e => Err e
+             end in
+  Corr.C14.holds (Corr.C14.mkCase (Some raw) (parse_rdnss raw) lifetime addrs obs (repeat obs k)) = true.
 Proof. exact Proofs.WildcardCorr14.C14_checker_accepts_model_config. Qed.
 
 (* non-vacuity *)
@@ -190,6 +193,18 @@ Proof.
   eexists. split; [left; reflexivity|]. repeat split.
 Qed.
 
+(* the checker is not vacuous about repeated applications: a second RA in which the wildcard server is
+   duplicated and the last static server lost (in-place insertion into a shared slice) is rejected *)
+Example C14_repeat_rejected :
+  let raw := [RS6 0; RS6 0x20010db8000000000000000000000002; RS6 0xfe800000000000000000000000000001] in
+  let first := rdnss_Apply true 3600000000000%Z
+                 [0x20010db8000000000000000000000002; 0xfe800000000000000000000000000001] (Some ex_addrs) in
+  Corr.C14.holds (Corr.C14.mkCase (Some raw) (parse_rdnss raw) 3600000000000%Z (Some ex_addrs) first [first]) = true
+  /\ Corr.C14.holds (Corr.C14.mkCase (Some raw) (parse_rdnss raw) 3600000000000%Z (Some ex_addrs) first
+       [Ok [ORDNSS 3600000000000%Z [0xfd000000000000000000000000000002; 0xfd000000000000000000000000000002;
+                                     0x20010db8000000000000000000000002]]]) = false.
+Proof. split; vm_compute; reflexivity. Qed.
+
 Print Assumptions C14_rank_meaning.
 Print Assumptions C14_stable_meaning.
 Print Assumptions C14_class_meaning.
@@ -209,3 +224,4 @@ Print Assumptions C14_static_map_order.
 Print Assumptions C14_checker_accepts_model_plugin.
 Print Assumptions C14_checker_accepts_model_config.
 Print Assumptions C14_example.
+Print Assumptions C14_repeat_rejected.
